@@ -191,7 +191,7 @@ func main() {
 
 	seeds := append(fixtureSeeds(), sampleSeeds()...)
 	sum.Extra["sample_schemas_loaded"] = len(seeds) - 7
-	nSchemas := o.Count(900, 40000)
+	nSchemas := o.Count(2200, 100000)
 	inputsPer := 3
 	t0 := time.Now()
 	for i := 0; i < nSchemas && hangs < 6; i++ {
@@ -272,6 +272,17 @@ func (x *runner) one(sd *Seed, inputsPer int) {
 		return
 	}
 	sum.Hist("schema:" + sd.Format + ":accepted")
+	if tree, ok := parseJSON(schema); ok && mutated {
+		if b := invariantBreach(tree); b != "" {
+			sum.Hist("FAIL:validator-accepted-invariant-breach")
+			if !x.seenSig["breach"] {
+				x.seenSig["breach"] = true
+				fmt.Printf("FAILURE NewSchema accepted %s\n  schema: %s\n", b, schema)
+				sum.Fail("NewSchema accepted a declaration that breaks a reader invariant the validators establish (reader panic-freedom is proved for validated declarations only): "+b,
+					mkCase(schema, nil), map[string]interface{}{"origin": sd.Name, "mutations": muts})
+			}
+		}
+	}
 	if !mutated && sd.Origin != "generated" {
 		sum.Hist("schema:pristine-accepted")
 	}
